@@ -597,6 +597,17 @@ pub fn build_store(env: &Arc<Env>) -> Result<Arc<TStore>, StoreError> {
     Ok(store)
 }
 
+/// Client threads carry the names the crate gives its own threads of a same-named store (the first
+/// client that of a delivery thread, the others that of pool workers, or the other way round in every
+/// second run): nothing the store does may depend on what the calling thread is called.
+pub fn client_thread_name(store_name: &str, role: &str, flip: bool) -> String {
+    if (role == "c1") != flip {
+        format!("{}-channeled-subscriber", store_name)
+    } else {
+        format!("{}-pool_thread_{}", store_name, role)
+    }
+}
+
 // ------------------------------------------------------------------------------------ program interpreter
 
 type BoxIter = Box<dyn Iterator<Item = (St, Act)> + Send>;
